@@ -55,6 +55,17 @@ def run(tier):
     dealers += [{"kind": "early", "proto": pr, "n": 2, "t": 1, "byz": b, "round": rd, "sched": vlib.seed() * 3 + i}
                 for i, (pr, b, rd) in enumerate((pr, b, rd) for pr in ("doerner-keygen", "doerner-sign", "doerner-refresh")
                                                 for b in ("a", "b") for rd in (1, 2, 3, 4, 5))]
+    # ... and the same with one byte-string field of that message altered (a valid message of another run may still lead to a
+    # correct result; an altered one must never be consumed unverified)
+    for pr in ("doerner-keygen", "doerner-sign", "doerner-refresh"):
+        d = hc.discover(pr, 2, 1, vlib.seed())
+        for sl in d["slots"]:
+            for li, lf in enumerate(sl["leaves"]):
+                if lf["Kind"] not in ("bytes", "lpbytes") or (quick and li % 2 == vlib.seed() % 2 and len(sl["leaves"]) > 12):
+                    continue
+                for b in ("a", "b"):
+                    dealers.append({"kind": "early", "proto": pr, "n": 2, "t": 1, "byz": b, "round": sl["round"], "leaf": li,
+                                    "alt": "flipfirst" if (li + len(dealers)) % 2 else "random", "sched": vlib.seed() * 3 + len(dealers)})
     st = adv.run_family(rep, wd, plan(quick), PROP, vlib.seed(), {"C03"}, shards=14, extra_scen=dealers)
     rep.cov.update({"distinct_nontrivial": st["distinct"], "states": st["states"], "transitions": st["transitions"],
                     "traces_validated_against_impl": st["traces"], "trace_lines": st["lines"], "catalogue_cases": st["catalogue"],
